@@ -115,12 +115,14 @@ def _compute_branches(  # pylint:disable=too-many-locals
                 # Create branches even for leaf genes
                 if synteny:
                     name = synteny
-                elif root_gene.name:
+                elif "_" in root_gene.name:
                     species_name, gene_name = root_gene.name.rsplit("_", 1)
                     name = (
                         rf"{tex.escape(species_name)}"
                         rf"\textsubscript{{{tex.escape(gene_name)}}}"
                     )
+                elif root_gene.name:
+                    name = tex.escape(root_gene.name)
                 else:
                     name = ""
 
